@@ -516,7 +516,7 @@ fn check_lowercase_name(name: &Name, w: &[u8]) {
     std::mem::forget(back);
 }
 
-// @harness props=C16 tier=quick mem=2 t=600 fn="<Name as ToOwned>::to_owned,<Box<LowercaseName> as From<Box<Name>>>::from,<Box<Name> as From<Box<LowercaseName>>>::from,<LowercaseName as Deref>::deref,Name::make_ascii_lowercase"
+// @harness props=C16 tier=thorough mem=2 t=600 fn="<Name as ToOwned>::to_owned,<Box<LowercaseName> as From<Box<Name>>>::from,<Box<Name> as From<Box<LowercaseName>>>::from,<LowercaseName as Deref>::deref,Name::make_ascii_lowercase"
 //   bound="all 7 shapes with <= 2 non-root labels of 1..=2 octets (and the root), every octet value; unwind 9"
 //   sym="shape<7, o:[u8;4]"
 #[kani::proof]
@@ -637,7 +637,7 @@ fn check_cmp_antisym(a: &Stack, b: &Stack, with_partial_cmp: bool) {
     kani::cover!(c == Ordering::Equal && a.n == 3, "Equal");
 }
 
-// @harness props=C16 tier=quick mem=9 t=3000 fn="<Name as Ord>::cmp,<Name as PartialOrd>::partial_cmp,<Label as Ord>::cmp"
+// @harness props=C16 tier=thorough mem=9 t=3000 fn="<Name as Ord>::cmp,<Name as PartialOrd>::partial_cmp,<Label as Ord>::cmp"
 //   bound="every ordered pair of valid names of wire length <= 5 (all shapes, every octet value), stack view; unwind 7"
 //   sym="a,b: buf:[u8;5], len<=5"
 #[kani::proof]
@@ -717,7 +717,7 @@ fn check_sub(a: &Stack, b: &Stack) {
     kani::cover!(!r && a.n < b.n, "shallower name");
 }
 
-// @harness props=C16 tier=quick mem=4 t=900 fn="Name::eq_or_subdomain_of,<Label as PartialEq>::eq,Name::labels,Labels::next_back"
+// @harness props=C16 tier=quick mem=3 t=900 fn="Name::eq_or_subdomain_of,<Label as PartialEq>::eq,Name::labels,Labels::next_back"
 //   bound="49 ordered shape pairs (<= 2 non-root labels of 1..=2 octets, and the root), every octet value in both names, stack view; unwind 9"
 //   sym="sa,sb<7, oa,ob:[u8;4]"
 #[kani::proof]
@@ -792,7 +792,7 @@ fn check_cmp_transitive(a: &Stack, b: &Stack, c: &Stack) {
     }
 }
 
-// @harness props=C16 tier=quick mem=8 t=2400 fn="<Name as PartialEq>::eq,<Label as PartialEq>::eq"
+// @harness props=C16 tier=thorough mem=8 t=2400 fn="<Name as PartialEq>::eq,<Label as PartialEq>::eq"
 //   bound="every triple of valid names of wire length <= 5 (all shapes, every octet value), stack view; unwind 7"
 //   sym="a,b,c: buf:[u8;5], len<=5"
 #[kani::proof]
@@ -801,7 +801,7 @@ fn c16_eq_transitive_w5() {
     check_eq_transitive(&any_name::<5>(), &any_name::<5>(), &any_name::<5>());
 }
 
-// @harness props=C16 tier=quick mem=9 t=3000 fn="<Name as Ord>::cmp,<Label as Ord>::cmp"
+// @harness props=C16 tier=thorough mem=9 t=3000 fn="<Name as Ord>::cmp,<Label as Ord>::cmp"
 //   bound="every triple of valid names of wire length <= 5 (all shapes, every octet value), stack view; unwind 7"
 //   sym="a,b,c: buf:[u8;5], len<=5"
 #[kani::proof]
@@ -882,7 +882,7 @@ fn special(o: u8) -> bool {
     o == b'.' || o == b'\\' || o == b' ' || o == b'*' || o >= 0x80 || o == 0 || o == 0x7f
 }
 
-// @harness props=C16 tier=quick mem=2 t=600 fn="<Name as Display>::fmt,<Box<Name> as FromStr>::from_str"
+// @harness props=C16 tier=thorough mem=2 t=600 fn="<Name as Display>::fmt,<Box<Name> as FromStr>::from_str"
 //   bound="the root name (concrete); unwind 4" sym="none"
 #[kani::proof]
 #[kani::unwind(4)]
@@ -1094,7 +1094,7 @@ fn accept<const N: usize>() -> ([u8; N], Option<usize>) {
     (bytes, labels)
 }
 
-// @harness props=C16 tier=quick mem=2 t=600 fn="<Box<Name> as FromStr>::from_str,parse_escape,NameBuilder::try_push,NameBuilder::next_label,NameBuilder::finish"
+// @harness props=C16 tier=thorough mem=2 t=600 fn="<Box<Name> as FromStr>::from_str,parse_escape,NameBuilder::try_push,NameBuilder::next_label,NameBuilder::finish"
 //   bound="every str of exactly 1 octet, and the empty str; unwind 4" sym="bytes:[u8;1]"
 #[kani::proof]
 #[kani::unwind(4)]
@@ -1105,7 +1105,7 @@ fn c16_fromstr_len1() {
     kani::cover!(ok.is_none() && b[0] == b'a', "rejected a relative name");
 }
 
-// @harness props=C16 tier=quick mem=3 t=900 fn="<Box<Name> as FromStr>::from_str,parse_escape,NameBuilder::try_push,NameBuilder::next_label,NameBuilder::finish"
+// @harness props=C16 tier=thorough mem=3 t=900 fn="<Box<Name> as FromStr>::from_str,parse_escape,NameBuilder::try_push,NameBuilder::next_label,NameBuilder::finish"
 //   bound="every well-formed UTF-8 str of exactly 2 octets; unwind 5" sym="bytes:[u8;2]"
 #[kani::proof]
 #[kani::unwind(5)]
@@ -1178,7 +1178,7 @@ fn label_of(buf: &[u8]) -> &Label {
     }
 }
 
-// @harness props=C16 tier=quick mem=2 t=600 fn="<&Label as TryFrom<&[u8]>>::try_from,<Label as PartialEq>::eq,<Label as Ord>::cmp,<Label as PartialOrd>::partial_cmp,<Label as Hash>::hash,Label::octets,Label::len,Label::is_null,Label::is_asterisk"
+// @harness props=C16 tier=thorough mem=2 t=600 fn="<&Label as TryFrom<&[u8]>>::try_from,<Label as PartialEq>::eq,<Label as Ord>::cmp,<Label as PartialOrd>::partial_cmp,<Label as Hash>::hash,Label::octets,Label::len,Label::is_null,Label::is_asterisk"
 //   bound="every ordered pair of labels of 0..=4 octets each (symbolic lengths, every octet value); unwind 6"
 //   sym="x,y:[u8;4], lx,ly<=4"
 #[kani::proof]
@@ -1213,7 +1213,7 @@ fn c16_label_pair_len4() {
     kani::cover!(c == Ordering::Greater && x[0] >= 0x80 && lx > 0 && ly > 0, "octets compare unsigned");
 }
 
-// @harness props=C16 tier=quick mem=2 t=600 fn="<LabelBuf as From<&[u8; N]>>::from,<LabelBuf as TryFrom<&[u8]>>::try_from,<&Label as TryFrom<&[u8]>>::try_from,<LabelBuf as Deref>::deref,<Label as ToOwned>::to_owned,<LabelBuf as PartialEq>::eq,<LabelBuf as Ord>::cmp,<LabelBuf as Hash>::hash"
+// @harness props=C16 tier=thorough mem=2 t=600 fn="<LabelBuf as From<&[u8; N]>>::from,<LabelBuf as TryFrom<&[u8]>>::try_from,<&Label as TryFrom<&[u8]>>::try_from,<LabelBuf as Deref>::deref,<Label as ToOwned>::to_owned,<LabelBuf as PartialEq>::eq,<LabelBuf as Ord>::cmp,<LabelBuf as Hash>::hash"
 //   bound="LabelBuf of 2 and 3 symbolic octets (every octet value) against the Label results; length limit at 63 / 64 octets (concrete zero-filled slices, symbolic length <= 70 for &Label); unwind 66"
 //   sym="x:[u8;2], y:[u8;3], n<=70"
 #[kani::proof]
